@@ -158,7 +158,7 @@ def _gen_float(r, k, depth):
             s["min"] = enc(lo)
             rest.append("min")
     elif r.random() < k.p_edge * 0.3:
-        s["min"] = enc(-inf)                              # a legal, if idle, declaration
+        s["min"] = enc(r.choice((-inf, -inf, float("nan"))))     # legal, if idle, declarations
         rest.append("min")
     if r.random() < k.p_constraint:
         hi = float(w + r.choice(deltas))
@@ -168,7 +168,7 @@ def _gen_float(r, k, depth):
             s["max"] = enc(hi)
             rest.append("max")
     elif r.random() < k.p_edge * 0.3:
-        s["max"] = enc(inf)
+        s["max"] = enc(r.choice((inf, inf, float("nan"))))
         rest.append("max")
     if prec is not None:
         s["precision"] = prec
